@@ -88,6 +88,25 @@ fn random_script(rng: &mut Rng, size: usize) -> Vec<E<In>> {
     v
 }
 
+/// only the random multi-key scripts (used by C05 / C06)
+pub fn generate_random(opts: &Opts, sink: &mut CaseSink) {
+    let mut rng = Rng::new(opts.seed ^ 0x12);
+    let n_random = (if opts.thorough { 6000 } else { 500 }) / opts.scale;
+    for _ in 0..n_random {
+        let size = rng.range(1, 8) as usize;
+        let slide = match rng.below(4) {
+            0 => size,
+            1 => 1,
+            _ => rng.range(1, size as i64) as usize,
+        };
+        // non-exact mode (which may hit the known finding F6 of C06) is a minority
+        let exact = !rng.chance(1, 5);
+        let script = random_script(&mut rng, size);
+        emit(sink, size, slide, exact, script);
+        sink.count("count_window");
+    }
+}
+
 pub fn generate(opts: &Opts, sink: &mut CaseSink) {
     let mut rng = Rng::new(opts.seed);
     // corpus: hand-picked shapes first
